@@ -214,6 +214,7 @@ def build(tier, seed):
     n_dp = sum(nl ** n for _, _, _, n, nl in cfgs)
     reuse_cfgs = [c for c in cfgs if c[4] ** c[3] <= REUSE_CAP[tier]]
     return {
+        'rule_more': 'quadrature measures (Arias, CAV, ISV) on dense integer-valued records of %s samples, probed at the end and around every power of two' % (list(QUAD_LONG_LENGTHS),),
         'cases': cases,
         'rule': '(i) all words over {-2..2} of length 1..%d (one pool case per word) x dt in %s x {float64, int64, '
                 'int8, uint8 (non-negative words) record} x 6 measures, relations alpha in %s and zero padding k in %s '
